@@ -349,6 +349,12 @@ func c17Scenarios(thorough bool) []*c17Scenario {
 		add("insert||lookup", p, []c17Op{ins(a, 0)}, []c17Op{ins(b, 1)}, []c17Op{scn(a), scn(b)})
 		add("delete||lookup", p, []c17Op{ins(a, 0), ins(b, 1)}, []c17Op{del(a, 0)}, []c17Op{scn(b), scn(a)})
 		add("insert||delete", pe, []c17Op{ins(1, 0)}, []c17Op{ins(2, 1)}, []c17Op{del(1, 0)})
+		if kind != "uniq" {
+			// two entries of one key (neighbouring slots / one node) removed by two threads
+			add("delete||delete(same key)", pe, []c17Op{ins(1, 0), ins(1, 1), ins(2, 0)}, []c17Op{del(1, 0), scn(1)}, []c17Op{del(1, 1), scn(2)})
+		} else {
+			add("delete||delete(same node)", pe, []c17Op{ins(1, 0), ins(2, 1), ins(3, 0)}, []c17Op{del(1, 0), scn(1)}, []c17Op{del(2, 1), scn(3)})
+		}
 		if kind != "hash" {
 			add("insert||range", p, []c17Op{ins(a, 0)}, []c17Op{ins(b, 1)}, []c17Op{rng(0, b)})
 			add("delete(node-removal)||range", p, []c17Op{ins(a, 0), ins(b, 1)}, []c17Op{del(b, 1), del(a, 0)}, []c17Op{rng(0, b)})
